@@ -5,6 +5,7 @@ use crate::pos::{Sp};
 use crate::game::{Game, LanguageKey};
 use crate::diagnostic::{RootEmitter, IntoDiagnostics};
 use crate::error::ErrorReported;
+use crate::io::BinWrite;
 use crate::context::{CompilerContext, Scope};
 use crate::llir::DecompileOptions;
 use crate::debug_info;
@@ -297,25 +298,39 @@ impl TruthWithValidatedDefs<'_, '_> {
     }
 
     pub fn write_anm(&mut self, game: Game, outpath: &Path, middle: &crate::AnmFile) -> Result<(), ErrorReported> {
-        crate::AnmFile::write_to_stream(middle, &mut self.fs().create_buffered(outpath)?, game)
+        let mut w = self.fs().create_buffered(outpath)?;
+        crate::AnmFile::write_to_stream(middle, &mut w, game)?;
+        w.finish()
     }
     pub fn write_msg(&mut self, game: Game, language: LanguageKey, outpath: &Path, middle: &crate::MsgFile) -> Result<(), ErrorReported> {
-        crate::MsgFile::write_to_stream(middle, &mut self.fs().create_buffered(outpath)?, game, language)
+        let mut w = self.fs().create_buffered(outpath)?;
+        crate::MsgFile::write_to_stream(middle, &mut w, game, language)?;
+        w.finish()
     }
     pub fn write_mission(&mut self, game: Game, outpath: &Path, middle: &crate::MissionMsgFile) -> Result<(), ErrorReported> {
-        crate::MissionMsgFile::write_to_stream(middle, &mut self.fs().create_buffered(outpath)?, game)
+        let mut w = self.fs().create_buffered(outpath)?;
+        crate::MissionMsgFile::write_to_stream(middle, &mut w, game)?;
+        w.finish()
     }
     pub fn write_std(&mut self, game: Game, outpath: &Path, middle: &crate::StdFile) -> Result<(), ErrorReported> {
-        crate::StdFile::write_to_stream(middle, &mut self.fs().create_buffered(outpath)?, game)
+        let mut w = self.fs().create_buffered(outpath)?;
+        crate::StdFile::write_to_stream(middle, &mut w, game)?;
+        w.finish()
     }
     pub fn write_ecl(&mut self, game: Game, outpath: &Path, middle: &crate::EclFile) -> Result<(), ErrorReported> {
-        crate::EclFile::write_to_stream(middle, &mut self.fs().create_buffered(outpath)?, game)
+        let mut w = self.fs().create_buffered(outpath)?;
+        crate::EclFile::write_to_stream(middle, &mut w, game)?;
+        w.finish()
     }
     pub fn write_olde_ecl(&mut self, game: Game, outpath: &Path, middle: &crate::OldeEclFile) -> Result<(), ErrorReported> {
-        crate::OldeEclFile::write_to_stream(middle, &mut self.fs().create_buffered(outpath)?, game)
+        let mut w = self.fs().create_buffered(outpath)?;
+        crate::OldeEclFile::write_to_stream(middle, &mut w, game)?;
+        w.finish()
     }
     pub fn write_stack_ecl(&mut self, game: Game, outpath: &Path, middle: &crate::StackEclFile) -> Result<(), ErrorReported> {
-        crate::StackEclFile::write_to_stream(middle, &mut self.fs().create_buffered(outpath)?, game)
+        let mut w = self.fs().create_buffered(outpath)?;
+        crate::StackEclFile::write_to_stream(middle, &mut w, game)?;
+        w.finish()
     }
 
     pub fn prepare_and_write_debug_info(&mut self, outpath: &Path) -> Result<(), ErrorReported> {
